@@ -23,7 +23,8 @@
 //! every common point is inside; `union` ⊇ both; `contains` TRUE ⇒ all samples inside, FALSE ⇒ none;
 //! `evaluate_bounds` contains the value of the expression for every sampled assignment whose evaluation is
 //! representable at every node; after `update_ranges`/`analyze`: Success ⇒ every sampled assignment that
-//! satisfies the constraint (all nodes representable) still lies inside the new ranges, Infeasible ⇒ no
+//! satisfies the constraint (all nodes representable; for floats: every operation exact, i.e. its real result
+//! is representable — absorption like 1.7e38f + 1.0f == 1.7e38f is exempt) still lies inside the new ranges, Infeasible ⇒ no
 //! sampled assignment satisfies it. The first assignments of an `Expr` case are also evaluated by the
 //! engine's own `PhysicalExpr::evaluate`; a disagreement with the model is `inconclusive`, not a violation.
 //!
@@ -357,7 +358,7 @@ fn samples(nt: NT, iv: (Option<Num>, Option<Num>), seeds: &[u64], exhaustive_sma
         );
         let mut push = |x: f64| {
             let x = r(x);
-            if x.is_finite() && x >= l && x <= h && !out.iter().any(|o| matches!(o, Num::F(y) if y.to_bits() == x.to_bits())) {
+            if x.is_finite() && l.total_cmp(&x).is_le() && x.total_cmp(&h).is_le() && !out.iter().any(|o| matches!(o, Num::F(y) if y.to_bits() == x.to_bits())) {
                 out.push(Num::F(x));
             }
         };
@@ -1046,7 +1047,8 @@ impl ExprResolver {
                 RA::Lit(want, end_value(want, &e).unwrap_or(if want.is_float() { Num::F(1.0) } else { Num::I(1) }))
             }
             A::Bin { op, l, r } => {
-                let op = EXPR_ARITH[pick_index((*op as u16) << 8, EXPR_ARITH.len())];
+                // integer `*` and `/` are behind known findings: keep them rare for integer trees
+                let op = if want.is_float() { EXPR_ARITH[pick_index((*op as u16) << 8, EXPR_ARITH.len())] } else { { use Operator::*; [Plus, Plus, Plus, Plus, Plus, Plus, Plus, Minus, Minus, Minus, Minus, Minus, Minus, Minus, Multiply, Divide][pick_index((*op as u16) << 8, 16)] } };
                 self.lab(match op {
                     Operator::Plus => "expr:+",
                     Operator::Minus => "expr:-",
@@ -1080,7 +1082,7 @@ impl ExprResolver {
             E::Cmp { op, ty, l, r } => {
                 let op = EXPR_CMP[pick_index((*op as u16) << 8, EXPR_CMP.len())];
                 // mostly compare in the column type
-                let t = if *ty < 49152 { self.col_ty } else { EXPR_NT[pick_index(ty.wrapping_mul(4), EXPR_NT.len())] };
+                let t = if *ty < 57344 { self.col_ty } else { EXPR_NT[pick_index(ty.wrapping_mul(4), EXPR_NT.len())] };
                 self.lab(&format!("expr:{op:?}"));
                 RE::Cmp(op, self.arith(l, t), self.arith(r, t))
             }
@@ -1107,6 +1109,57 @@ fn re_phys(e: &RE) -> Arc<dyn PhysicalExpr> {
         RE::Cmp(op, l, r) => Arc::new(BinaryExpr::new(ra_phys(l), *op, ra_phys(r))),
         RE::And(a, b) => Arc::new(BinaryExpr::new(re_phys(a), Operator::And, re_phys(b))),
     }
+}
+
+thread_local! {
+    /// set by `eval_ra` when a floating-point operation of the current evaluation had to round
+    static INEXACT: std::cell::Cell<bool> = const { std::cell::Cell::new(false) };
+}
+
+/// is the floating-point operation exact (its real-number result representable)?
+fn fp_exact(op: Operator, x: f64, y: f64, f32m: bool) -> bool {
+    if f32m {
+        let (a, b) = (x as f32, y as f32);
+        match op {
+            Operator::Plus | Operator::Minus => {
+                let b = if op == Operator::Minus { -b } else { b };
+                let s = a + b;
+                let bb = s - a;
+                let e = (a - (s - bb)) + (b - bb);
+                s.is_finite() && e == 0.0
+            }
+            Operator::Multiply => (x * y) == ((a * b) as f64),
+            _ => {
+                let q = a / b;
+                q.is_finite() && (q as f64) * y == x
+            }
+        }
+    } else {
+        match op {
+            Operator::Plus | Operator::Minus => {
+                let y = if op == Operator::Minus { -y } else { y };
+                let s = x + y;
+                let bb = s - x;
+                let e = (x - (s - bb)) + (y - bb);
+                s.is_finite() && e == 0.0
+            }
+            Operator::Multiply => {
+                let p = x * y;
+                p.is_finite() && x.mul_add(y, -p) == 0.0 && (p != 0.0 || x == 0.0 || y == 0.0)
+            }
+            _ => {
+                let q = x / y;
+                q.is_finite() && q.mul_add(y, -x) == 0.0 && (q != 0.0 || x == 0.0)
+            }
+        }
+    }
+}
+
+/// `eval_re` plus "every floating-point operation was exact"
+fn eval_re_exact(e: &RE, asg: &[Num]) -> (Option<bool>, bool) {
+    INEXACT.with(|c| c.set(false));
+    let r = eval_re(e, asg);
+    (r, !INEXACT.with(|c| c.get()))
 }
 
 /// model evaluation: None = some node is not representable / undefined (assignment exempt)
@@ -1146,6 +1199,11 @@ fn eval_ra(a: &RA, asg: &[Num]) -> Option<Num> {
                 (Num::F(x), Num::F(y)) => {
                     let f32m = *t == NT::F32;
                     let (xs, ys) = (x as f32, y as f32);
+                    if y != 0.0 || *op != Operator::Divide {
+                        if !fp_exact(*op, x, y, f32m) {
+                            INEXACT.with(|c| c.set(true));
+                        }
+                    }
                     match op {
                         Operator::Plus => fin(*t, if f32m { (xs + ys) as f64 } else { x + y }),
                         Operator::Minus => fin(*t, if f32m { (xs - ys) as f64 } else { x - y }),
@@ -1390,7 +1448,9 @@ fn run_expr(c: &ExprCase) -> CaseResult {
     }
 
     // 2. update_ranges
-    let satisfying: Vec<&Vec<Num>> = asgs.iter().filter(|a| eval_re(&re, a) == Some(want)).collect();
+    // propagation inverts the operations: only assignments whose floating-point evaluation is exact (the real
+    // result of every node is representable) are claimed to survive it
+    let satisfying: Vec<&Vec<Num>> = asgs.iter().filter(|a| eval_re_exact(&re, a) == (Some(want), true)).collect();
     match g.update_ranges(&mut leaf, given.clone()) {
         Ok(PropagationResult::Success) => {
             labels.push("propagation:success".into());
@@ -1437,7 +1497,7 @@ fn run_expr(c: &ExprCase) -> CaseResult {
     let boundaries: Vec<ExprBoundaries> = (0..ncols)
         .map(|i| ExprBoundaries { column: Column::new(&format!("c{i}"), i), interval: Some(ivs[i].clone()), distinct_count: datafusion_common::stats::Precision::Absent })
         .collect();
-    let sat_true: Vec<&Vec<Num>> = asgs.iter().filter(|a| eval_re(&re, a) == Some(true)).collect();
+    let sat_true: Vec<&Vec<Num>> = asgs.iter().filter(|a| eval_re_exact(&re, a) == (Some(true), true)).collect();
     match analyze(&phys, AnalysisContext::new(boundaries), &schema) {
         Ok(ctx) => {
             for (i, b) in ctx.boundaries.iter().enumerate() {
@@ -1510,7 +1570,7 @@ fn arith_s() -> BoxedStrategy<A> {
     ];
     leaf.prop_recursive(2, 6, 2, |inner| {
         prop_oneof![
-            6 => (any::<u8>(), inner.clone(), inner.clone()).prop_map(|(op, l, r)| A::Bin { op, l: Box::new(l), r: Box::new(r) }),
+            10 => (any::<u8>(), inner.clone(), inner.clone()).prop_map(|(op, l, r)| A::Bin { op, l: Box::new(l), r: Box::new(r) }),
             1 => inner.clone().prop_map(|x| A::Neg(Box::new(x))),
             1 => (any::<u16>(), inner).prop_map(|(to, x)| A::Cast { to, inner: Box::new(x) }),
         ]
@@ -1536,12 +1596,12 @@ impl Property for C23 {
         let op = (nt_s(&ALL_NT), any::<u8>(), any::<u8>(), iv_s(), iv_s(), prop::collection::vec(any::<u64>(), nseeds), prop_oneof![3 => Just(0u8), 1 => 1u8..10])
             .prop_map(|(nt, rhs_kind, op, a, b, seeds, nullable)| Case::Op(OpCase { nt, rhs_kind, op, a, b, seeds, nullable }));
         let cast = (nt_s(&ALL_NT), any::<u16>(), iv_s(), any::<bool>(), prop::collection::vec(any::<u64>(), nseeds)).prop_map(|(from, to, iv, safe, seeds)| Case::Cast(CastCase { from, to, iv, safe, seeds }));
-        let expr = (nt_s(&EXPR_NT), prop::collection::vec(iv_s(), 1..=3), bool_s(), prop::bool::weighted(0.15), prop::collection::vec(any::<u64>(), nseeds))
+        let expr = (prop_oneof![2 => nt_s(&EXPR_NT), 1 => prop::sample::select(vec![NT::F32, NT::F64])], prop::collection::vec(iv_s(), 1..=3), bool_s(), prop::bool::weighted(0.04), prop::collection::vec(any::<u64>(), nseeds))
             .prop_map(|(nt, ranges, tree, given_false, seeds)| Case::Expr(ExprCase { nt, ranges, tree, given_false, seeds }));
-        prop_oneof![5 => op, 1 => cast, 4 => expr].boxed()
+        prop_oneof![4 => op, 1 => cast, 5 => expr].boxed()
     }
     fn budget(&self, tier: Tier) -> Budget {
-        Budget::new(tier.pick(40_000, 3_000_000), tier.pick(8, 16)).min_nontrivial(tier.pick(2_000, 100_000)).discard_cap(0.3)
+        Budget::new(tier.pick(32_000, 3_000_000), tier.pick(8, 16)).min_nontrivial(tier.pick(2_000, 100_000)).discard_cap(0.3)
     }
     fn rule(&self) -> String {
         "operator cases (type x operator x two endpoint-pattern intervals, exhaustive value grid for Int8/UInt8, sampled values otherwise), cast cases, expression cases (typed tree x column ranges x sampled assignments); \
@@ -1553,6 +1613,7 @@ impl Property for C23 {
             "concrete semantics: exact integer arithmetic in i128 with truncating division; IEEE round-to-nearest in the native float width; results outside the result type, division by zero, NaN and overflow to infinity are exempt".into(),
             "float membership uses IEEE comparison for operator results and the engine's total order for set operations; zeros of either sign are skipped where the two orders differ".into(),
             "the concrete value of a cast is the engine's own scalar cast (safe mode)".into(),
+            "propagation (update_ranges / analyze) is only required to keep assignments whose floating-point evaluation is exact at every node (the real result is representable): absorption such as 1.7e38f + 1.0f == 1.7e38f cannot be inverted by interval arithmetic; forward bounds are checked against the rounded values as well".into(),
             "expression level: only expressions accepted by check_support are analysed (as FilterExec / SymmetricHashJoin do); an assignment with a non-representable intermediate value is exempt".into(),
         ]
     }
@@ -1650,25 +1711,163 @@ impl Property for C23 {
                 }
             }
         }
-        Ok(json!({"exhaustive": {"boolean_interval_algebra_checks": checked}}))
+        Ok(json!({"boolean_interval_algebra_exhaustive_checks": checked}))
     }
 }
 
 /// Signatures of known findings (see /verif/known_findings.json):
-/// * `given-false-uncertain-or-eq`: `update_ranges(.., FALSE)` on a conjunction or on an `=` comparison:
-///   `propagate_comparison` answers `None` ("infeasible") for an uncertain parent and for `Eq` under FALSE,
-///   although its own comments say that nothing can be propagated there.
+/// * `mul-both-contain-zero-overflow`: `Interval::mul` of two zero-containing integer intervals where an endpoint
+///   product overflows: the overflowed (unbounded = NULL) candidate is dropped by `max_of_bounds` / `min_of_bounds`,
+///   which read NULL as the *opposite* infinity ([-2,127] * [0,2] = [-4,0] for Int8).
+/// * `int-mul-expr`: any integer multiplication inside an expression: besides the above, constraint propagation
+///   inverts `x * y = p` into `x in p / y`; integer `Interval::div` is only unbounded when 0 is strictly inside the
+///   divisor, so with y in [0, k] and 0 in p every x is a solution (y = 0) but x is cut to [0, +inf)
+///   (`c0 + c0 <= -1 * c0`, c0 in [0,32767] is reported Infeasible although c0 = 0 satisfies it).
+/// * `int-div-upper-zero`: `Interval::div` on integer types when an operand's upper bound is 0 and its lower bound is
+///   negative: the `zero_point` trick ([-1, 1] for integers) classifies it as a positive interval
+///   (Int8 [5,10] / [-5,0] = [NULL,-2], missing 5 / -5 = -1).
+/// * `int-div-expr`: any integer division inside an expression: besides the above, constraint propagation
+///   inverts `x / y = p` into `x in y * p`, which is wrong for truncating division (`c0 / 2 = 3`, c0 in [0,10]
+///   is shrunk to [6,6], losing 7).
+/// * `lossy-cast-propagation`: `CastExpr::propagate_constraints` casts the parent interval back to the child type
+///   as if the cast were injective: `CAST(c0 AS Int32) = 3` with c0 in [0.0, 4.0] shrinks c0 to [3, 3] (3.5 lost);
+///   likewise Int32/Int64 -> Float32/Float64 beyond the mantissa and Float64 -> Float32.
+/// * `ts-minus-duration-overflow-sign`: `Interval::sub` of a timestamp and a duration interval when an endpoint
+///   difference overflows: `handle_overflow` decides the sign by `lhs >= rhs`, which is `false` for scalars of
+///   different types, so a positive overflow becomes the type's MIN ([NULL,MAX] - [-1,NULL] = [NULL,MIN]).
+/// * `decimal-mul-unbounded-mixed-type`: `Interval::mul` of Decimal128 intervals of one type takes `dt` = the operand
+///   type, so unbounded (NULL) endpoints are typed Decimal128(10,2) while computed ones are Decimal128(21,4):
+///   the debug assertion in `Interval::data_type` panics (release builds return a mixed-type interval).
+/// * `nullable-distinct-maybenull-notnull`: `NullableInterval::apply_operator(IsDistinctFrom | IsNotDistinctFrom)` with one
+///   `MaybeNull` and one `NotNull` operand ignores that the first may be NULL:
+///   `([0,0] U {NULL}) IS DISTINCT FROM [0,0]` = certainly FALSE, but NULL IS DISTINCT FROM 0 is TRUE.
+/// * `given-false`: `update_ranges(.., FALSE)`: `propagate_comparison` answers `None` ("infeasible") for an uncertain
+///   parent and for `Eq` under FALSE although its comments say that nothing can be propagated there, and the
+///   FALSE branches of `>`/`>=`/`<`/`<=` return the two child intervals in swapped order
+///   (`0 > c0` FALSE with c0 in [NULL,127] turns c0 into [0,0]).
 fn known_sig(case: &Case) -> Option<String> {
     match case {
         Case::Expr(c) => {
+            if c.ranges.is_empty() || c.ranges.len() > 3 {
+                return None;
+            }
+            let mut rs = ExprResolver { col_ty: c.nt, ncols: c.ranges.len(), labels: vec![] };
+            let re = rs.boolean(&c.tree);
+            if re_any(&re, &has_lossy_cast) {
+                return Some("lossy-cast-propagation".into());
+            }
+            if re_any(&re, &has_int_div) {
+                return Some("int-div-expr".into());
+            }
+            if re_any(&re, &has_int_mul) {
+                return Some("int-mul-expr".into());
+            }
             if c.given_false {
-                let single_non_eq = matches!(&c.tree, E::Cmp { op, .. } if EXPR_CMP[pick_index((*op as u16) << 8, EXPR_CMP.len())] != Operator::Eq);
-                if !single_non_eq {
-                    return Some("given-false-uncertain-or-eq".into());
+                return Some("given-false".into());
+            }
+            None
+        }
+        Case::Op(c) => {
+            let (k, rhs_nt) = effective_op(c);
+            if c.nullable != 0 && matches!(k, OpK::Bin(Operator::IsDistinctFrom | Operator::IsNotDistinctFrom)) {
+                let (va, vb) = ((c.nullable - 1) % 3, ((c.nullable - 1) / 3) % 3);
+                if (va, vb) == (1, 0) || (va, vb) == (0, 1) {
+                    return Some("nullable-distinct-maybenull-notnull".into());
+                }
+            }
+            if k == OpK::Bin(Operator::Minus) && rhs_nt != c.nt {
+                let (a, b) = (resolve_iv(c.nt, &c.a), resolve_iv(rhs_nt, &c.b));
+                let (lo, hi) = c.nt.range().unwrap_or((i128::MIN, i128::MAX));
+                let over = |x: Option<Num>, y: Option<Num>| matches!((x, y), (Some(Num::I(x)), Some(Num::I(y))) if x - y < lo || x - y > hi);
+                if over(a.1, b.0) || over(a.0, b.1) {
+                    return Some("ts-minus-duration-overflow-sign".into());
+                }
+            }
+            if k == OpK::Bin(Operator::Divide) && !c.nt.is_float() {
+                let (a, b) = (resolve_iv(c.nt, &c.a), resolve_iv(rhs_nt, &c.b));
+                let upper_zero = |iv: (Option<Num>, Option<Num>)| iv.1 == Some(Num::I(0)) && iv.0 != Some(Num::I(0)) && !c.nt.is_unsigned();
+                if upper_zero(a) || upper_zero(b) {
+                    return Some("int-div-upper-zero".into());
+                }
+            }
+            if k == OpK::Bin(Operator::Multiply) && c.nt == NT::Dec102 {
+                let (a, b) = (resolve_iv(c.nt, &c.a), resolve_iv(rhs_nt, &c.b));
+                if a.0.is_none() || a.1.is_none() || b.0.is_none() || b.1.is_none() {
+                    return Some("decimal-mul-unbounded-mixed-type".into());
+                }
+            }
+            if k == OpK::Bin(Operator::Multiply) && !c.nt.is_float() {
+                let (a, b) = (resolve_iv(c.nt, &c.a), resolve_iv(rhs_nt, &c.b));
+                // the engine turns an unbounded unsigned lower bound into 0
+                let lo0 = |v: Option<Num>, t: NT| if v.is_none() && t.is_unsigned() { Some(Num::I(0)) } else { v };
+                if let (Some(Num::I(al)), Some(Num::I(ah)), Some(Num::I(bl)), Some(Num::I(bh))) = (lo0(a.0, c.nt), a.1, lo0(b.0, rhs_nt), b.1) {
+                    let (lo, hi) = mul_result_range(c.nt);
+                    let zero_in_both = al <= 0 && 0 <= ah && bl <= 0 && 0 <= bh && !c.nt.is_unsigned();
+                    if zero_in_both && [al * bh, bl * ah, ah * bh, al * bl].iter().any(|p| *p < lo || *p > hi) {
+                        return Some("mul-both-contain-zero-overflow".into());
+                    }
                 }
             }
             None
         }
         _ => None,
+    }
+}
+
+/// integer range of the type `t * t` evaluates to
+fn mul_result_range(t: NT) -> (i128, i128) {
+    match t {
+        NT::Dec102 => {
+            let m = 10i128.pow(21) - 1;
+            (-m, m)
+        }
+        _ => t.range().unwrap_or((i128::MIN, i128::MAX)),
+    }
+}
+
+fn has_int_mul(a: &RA) -> bool {
+    match a {
+        RA::Col(..) | RA::Lit(..) => false,
+        RA::Neg(x, _) | RA::Cast(x, _, _) => has_int_mul(x),
+        RA::Bin(op, l, r, t) => (*op == Operator::Multiply && !t.is_float()) || has_int_mul(l) || has_int_mul(r),
+    }
+}
+
+fn cast_injective(from: NT, to: NT) -> bool {
+    let bits = |t: NT| match t {
+        NT::I8 | NT::U8 => 8,
+        NT::I16 | NT::U16 => 16,
+        NT::I32 | NT::U32 => 32,
+        _ => 64,
+    };
+    match (from.is_float(), to.is_float()) {
+        (false, false) => true,
+        (false, true) => bits(from) <= if to == NT::F32 { 24 } else { 53 },
+        (true, false) => false,
+        (true, true) => !(from == NT::F64 && to == NT::F32),
+    }
+}
+
+fn has_lossy_cast(a: &RA) -> bool {
+    match a {
+        RA::Col(..) | RA::Lit(..) => false,
+        RA::Neg(x, _) => has_lossy_cast(x),
+        RA::Cast(x, from, to) => !cast_injective(*from, *to) || has_lossy_cast(x),
+        RA::Bin(_, l, r, _) => has_lossy_cast(l) || has_lossy_cast(r),
+    }
+}
+
+fn has_int_div(a: &RA) -> bool {
+    match a {
+        RA::Col(..) | RA::Lit(..) => false,
+        RA::Neg(x, _) | RA::Cast(x, _, _) => has_int_div(x),
+        RA::Bin(op, l, r, t) => (*op == Operator::Divide && !t.is_float()) || has_int_div(l) || has_int_div(r),
+    }
+}
+
+fn re_any(e: &RE, f: &dyn Fn(&RA) -> bool) -> bool {
+    match e {
+        RE::Cmp(_, l, r) => f(l) || f(r),
+        RE::And(a, b) => re_any(a, f) || re_any(b, f),
     }
 }
